@@ -360,6 +360,36 @@ func artefactConformance(run *core.Run) {
 			}
 			run.Eval(4)
 		}
+		// layer 1c: what a tree walker is told - every rule context of the three generated parsers hands itself to
+		// exactly its own Enter / Exit callback (a hand edit of one dispatch method changes no automaton, no table,
+		// no acceptance and no tree, only what a listener sees)
+		if kind == "Parser" {
+			if pg, err := parserGrammar(); err == nil {
+				for _, l := range []struct{ lang, src string }{{"go", goSrc}, {"ts", tsSrc}, {"java", javaSrc}} {
+					ds := g4.ListenerDispatch(l.src, l.lang)
+					run.Count("listener_dispatch_methods_"+l.lang, int64(2*len(ds)))
+					if len(ds) == 0 {
+						run.Inconclusive("no EnterRule/ExitRule methods found in the generated %s parser (pattern outdated?)", l.lang)
+						continue
+					}
+					var ctxs []string
+					for _, d := range ds {
+						ctxs = append(ctxs, strings.ToLower(d.Context))
+						run.Eval(2)
+						if len(d.Enter) != 1 || !strings.EqualFold(d.Enter[0], "Enter"+d.Context) || len(d.Exit) != 1 || !strings.EqualFold(d.Exit[0], "Exit"+d.Context) {
+							run.Violation("listener-dispatch-differs:"+l.lang+":"+d.Context, c, fmt.Sprintf("Enter%s / Exit%s, once each", d.Context, d.Context), fmt.Sprintf("enter calls %v, exit calls %v", d.Enter, d.Exit))
+						}
+					}
+					var want []string
+					for _, r := range pg.Rules {
+						want = append(want, strings.ToLower(r))
+					}
+					if why := eqStrs(ctxs, want); why != "" {
+						run.Violation("listener-dispatch-contexts-differ-from-grammar-rules:"+l.lang, c, "one context with EnterRule/ExitRule per rule of OpenFGAParser.g4, in order", why)
+					}
+				}
+			}
+		}
 		// layer 2: vocabularies
 		gn, err1 := g4.GoNames(goSrc)
 		tn, err2 := g4.TSNames(tsSrc)
